@@ -24,10 +24,10 @@ pub(super) fn read_values(
 ) -> Result<Vec<Option<Value>>, DecodeError> {
     let value_ty = read_type(src)
         .map_err(DecodeError::InvalidType)?
-        .expect("unhandled type");
+        .ok_or(DecodeError::UnexpectedType(None))?;
 
     match (number, ty, value_ty) {
-        (Number::Count(0), _, _) => todo!("invalid number for type"),
+        (Number::Count(0), _, _) => Err(DecodeError::InvalidNumberForType(number, ty)),
 
         (_, _, Type::Int8(0) | Type::Int16(0) | Type::Int32(0) | Type::Float(0)) => {
             Err(DecodeError::InvalidLength)
@@ -63,7 +63,7 @@ pub(super) fn read_values(
             read_string_array_values(src, sample_count, n)
         }
 
-        _ => todo!("unhandled type"),
+        _ => Err(DecodeError::UnexpectedType(Some(value_ty))),
     }
 }
 
@@ -423,7 +423,7 @@ pub(super) fn read_genotype_values(
                 }
             }
         },
-        ty => todo!("unhandled type: {:?}", ty),
+        ty => return Err(DecodeError::UnexpectedType(ty)),
     }
 
     Ok(values)
@@ -469,6 +469,8 @@ fn parse_genotype_values(values: &[i8]) -> Result<Genotype, DecodeError> {
 #[derive(Debug, Eq, PartialEq)]
 pub enum DecodeError {
     InvalidType(ty::DecodeError),
+    InvalidNumberForType(Number, format::Type),
+    UnexpectedType(Option<Type>),
     InvalidLength,
     InvalidRawValue(raw_value::DecodeError),
     InvalidString(str::Utf8Error),
@@ -490,6 +492,10 @@ impl fmt::Display for DecodeError {
     fn fmt(&self, f: &mut fmt::Formatter<'_>) -> fmt::Result {
         match self {
             Self::InvalidType(_) => write!(f, "invalid type"),
+            Self::InvalidNumberForType(number, ty) => {
+                write!(f, "invalid number {number:?} for type {ty:?}")
+            }
+            Self::UnexpectedType(ty) => write!(f, "unexpected type: {ty:?}"),
             Self::InvalidLength => write!(f, "invalid length"),
             Self::InvalidRawValue(_) => write!(f, "invalid raw value"),
             Self::InvalidString(_) => write!(f, "invalid string"),
